@@ -1,6 +1,6 @@
 import AbraModel.Sem
 import AbraModel.Drv.Util
-/- Driver for M7: `sem <fuel> <program as space-separated S-expression tokens>`.
+/- Driver for M7: `sem <fuel> final|nofinal <program as space-separated S-expression tokens>`.
    Answer: `done <final> <hex output>` | `error:<kind> - <hex output>` | `timeout` | `stuck <why>` | `bad-op`.
    The term language is produced by the harness generator (harness/src/progen.rs); strings travel as hex. -/
 namespace Abra.Drv
@@ -139,19 +139,20 @@ def finalName : Val → String
   | .str s => "str:" ++ hexOfString s
   | _ => "-"
 
-def renderOutcome : Outcome → String
-  | .done v _ out => s!"done {finalName v} {hexOfString (String.join out.reverse)}"
+def renderOutcome (withFinal : Bool) : Outcome → String
+  | .done v _ out => s!"done {if withFinal then finalName v else "-"} {hexOfString (String.join out.reverse)}"
   | .error k out => s!"error:{errName k} - {hexOfString (String.join out.reverse)}"
   | .timeout => "timeout"
   | .stuck w => "stuck " ++ w.replace " " "_"
 
 def handleSem : List String → String
-  | fuel :: toks =>
+  | fuel :: fin :: toks =>
     match fuel.toNat?, parseSExp toks with
     | some fuel, some (sx, []) =>
-      match toProg sx with
-      | some P => renderOutcome (run fuel P)
-      | none => "bad-op"
+      match toProg sx, fin with
+      | some P, "final" => renderOutcome true (run fuel P)
+      | some P, "nofinal" => renderOutcome false (run fuel P)
+      | _, _ => "bad-op"
     | _, _ => "bad-op"
   | _ => "bad-op"
 
